@@ -669,7 +669,7 @@ class Group:
         cat = what.split(':')[0]
         self.ctx.count('violations:' + cat)
         if self.classify(what, kw):
-            return
+            return True
         # one input usually violates several clauses at once: report two of them, count the rest
         if cat in self.reported or len(self.reported) >= self.cap:
             return
@@ -803,8 +803,10 @@ def history(g, r, base, grid, rng, steps=9):
             try:
                 res = getattr(build(r) if rng.random() < 0.5 else w, how)(c, t)
             except Exception as e:  # noqa
-                g.violation('history: %s with a %s time array raised %s: %s' % (how, dtype, type(e).__name__, str(e)[:120]),
-                            grid=[str(x) for x in grid])
+                if g.violation('history: %s with a %s time array raised %s: %s'
+                               % (how, dtype, type(e).__name__, str(e)[:120]), dtype=dtype, exc=type(e).__name__,
+                               grid=[str(x) for x in grid]):
+                    continue            # inside the class of a known finding: go on with the other representations
                 return
             ctx.count('history:dtype-' + dtype)
             got = [val(x) for x in res]
@@ -1489,7 +1491,25 @@ def pfC08e_class(g, what, kw):
     return end_excess(g.recipe) and all(is_end_time(g.recipe, t) for t in kw['bad_times'])
 
 
-KNOWN_CLASSES = {'PF-C08c': pf26_class, 'PF-C08e': pfC08e_class}
+def _parallel_sets_time(r):
+    """some ParallelChannelTransformation of the recipe sets a channel to the bare time variable `t`"""
+    if not isinstance(r, list):
+        return False
+    if r and r[0] == 'parallel' and len(r) > 1 and isinstance(r[1], list):
+        if any(isinstance(kv, list) and len(kv) == 2 and isinstance(kv[1], list) and kv[1][:1] == ['expr']
+               and F(kv[1][1]) == 1 and F(kv[1][2]) == 0 for kv in r[1]):
+            return True
+    return any(_parallel_sets_time(c) for c in r)
+
+
+def pfC08f_class(g, what, kw):
+    """PF-C08f: integer-dtype sample times; a ParallelChannelTransformation whose value is the bare `t` returns the
+    (integer) time array as channel data and an ArithmeticWaveform adds a float array into it in place"""
+    return (str(kw.get('dtype', '')).startswith('int') and kw.get('exc') == 'UFuncTypeError'
+            and _has(g.recipe, 'arith') and _parallel_sets_time(g.recipe))
+
+
+KNOWN_CLASSES = {'PF-C08c': pf26_class, 'PF-C08e': pfC08e_class, 'PF-C08f': pfC08f_class}
 
 
 # ---------------------------------------------------------------------------------------------
@@ -1670,7 +1690,7 @@ def witnesses_known(ctx):
                 ctx.count('known-not-reproduced:' + kf['finding'])
         elif 'recipe' in w:
             B = Batch()
-            g = check_group(B, ctx, recipe_of_line(w['recipe']), w.get('subseed', 0), 'known-' + kf['finding'], light=True)
+            g = check_group(B, ctx, recipe_of_line(w['recipe']), w.get('subseed', 0), 'known-' + kf['finding'], light=False)
             B.run()
             finish_groups(ctx, [g])
             if not any(l.startswith('KNOWN-FINDING: property=C08 %s' % kf['finding']) for l in ctx.known_printed):
